@@ -901,12 +901,17 @@ vbi_xds_demux_feed		(vbi_xds_demux *	xd,
 
 		i = xds_subclass;
 
-		/* MISC subclass 0x4n */
-		if (i >= 0x40)
-			i += 0x10 - 0x40;
+		/* MISC subclass 0x4n is stored at 0x1n. Only MISC has
+		   subclasses >= 0x40, and none in range 0x10 ... 0x3F. */
+		if (VBI_XDS_CLASS_MISC == xds_class) {
+			if (i >= 0x40)
+				i += 0x10 - 0x40;
+			else if (i >= 0x10)
+				i = N_ELEMENTS (xd->subpacket[0]);
+		}
 
 		if (xds_class > VBI_XDS_CLASS_MISC
-		    || i > N_ELEMENTS (xd->subpacket[0])) {
+		    || i >= N_ELEMENTS (xd->subpacket[0])) {
 			log ("XDS ignore packet 0x%x/0x%02x, "
 			     "unknown class or subclass\n",
 			     xds_class, xds_subclass);
